@@ -7,7 +7,13 @@ from mml import N, mi, mn, mo, mrow, el, mtext
 ODD_CHARS = ["∀", "∃", "ℵ", "⊕", "⊗", "∮", "⋉", "⨁", "⟹", "↦", "ℏ", "∂", "∇", "√", "∞", "≅", "≢", "⊢", "⊨", "⌈", "⌋", "⟦", "𝔸", "𝒜", "𝕜", "𝛼", "Ω", "ж", "ש", "あ", "字", "☃", "🙂", "ʘ",
              "͸", "⁥", "", "\U000F0000", " ", "⁡", "⁢", "⁣", "⁤", "​", "­", "ﬁ", "ǆ", "͵", "‰", "№", "℃", "㎏"]
 CAP_PREFS = [(), (("SpeechOverrides_CapitalLetters", "cap"),), (("ClearSpeak_CapitalLetters", "SayCaps"),), (("SpeechOverrides_CapitalLetters", ""), ("Impairment", "LearningDisability")),
-             (("Impairment", "LowVision"),)]
+             (("Impairment", "LowVision"),), (("Bookmark", "true"),), (("Bookmark", "true"), ("CapitalLetters_Pitch", "20"), ("CapitalLetters_Beep", "true")), (("MathRate", "150"), ("PauseFactor", "300")),
+             (("CapitalLetters_UseWord", "false"), ("CapitalLetters_Pitch", "30"))]
+WALK = ["ZoomIn", "ReadCurrent", "MoveNext", "DescribeCurrent", "MoveNext", "ZoomIn", "WhereAmI", "MovePrevious", "ZoomOut", "MoveNext", "ReadNext", "ZoomInAll", "MovePrevious", "ZoomOutAll", "MoveEnd", "MoveStart"]
+WALK_EXPRS = ["<math><msubsup><mi>x</mi><mn>1</mn><mn>2</mn></msubsup><mo>+</mo><mn>1</mn></math>", "<math><mfrac><mrow><mi>a</mi><mo>+</mo><mn>1</mn></mrow><msqrt><mi>b</mi></msqrt></mfrac><mo>=</mo><msup><mi>c</mi><mn>2</mn></msup></math>",
+              "<math><mrow><mo>(</mo><mtable><mtr><mtd><mn>1</mn></mtd><mtd><mn>2</mn></mtd></mtr><mtr><mtd><mn>3</mn></mtd><mtd><mn>4</mn></mtd></mtr></mtable><mo>)</mo></mrow><mi>x</mi></math>",
+              "<math><mrow><munderover><mo>∑</mo><mrow><mi>k</mi><mo>=</mo><mn>1</mn></mrow><mi>n</mi></munderover><msub><mi>a</mi><mi>k</mi></msub></mrow><mo>⊕</mo><mi>ℵ</mi></math>",
+              "<math><mrow><mi>sin</mi><mo>⁡</mo><mrow><mo>(</mo><mi>x</mi><mo>)</mo></mrow></mrow><mo>+</mo><mmultiscripts><mi>C</mi><mn>2</mn><none/><mprescripts/><mn>4</mn><none/></mmultiscripts></math>"]
 NAV = ["ZoomIn", "MoveNext", "ReadNext", "DescribeCurrent", "ReadCurrent", "WhereAmI", "WhereAmIAll", "ZoomOutAll", "MoveLineEnd", "ToggleSpeakMode", "MovePrevious"]
 
 BAD = re.compile("[-\U000F0000-\U000FFFFD\U00100000-\U0010FFFD]")
@@ -19,7 +25,7 @@ def dirty(s, src):
     for m in BAD.findall(s):
         if m not in src:
             out.append("private-use U+%04X" % ord(m))
-    if "[[" in s or "]]" in s:
+    if ("[[" in s and "[[" not in src) or ("]]" in s and "]]" not in src):
         out.append("navigation brackets")
     for c in "⁡⁢⁣⁤":
         if c in s:
@@ -74,7 +80,7 @@ def run(ctx):
         trees = corpus(rng, n_random)
         xmls = [mml.to_xml(t, ns_decl=False) for t in trees]
         dec, pre, items = speech_run.run_config(im, cfg, xmls)
-        ne, dis = speech_run.replay_logs(mo, 100, items)
+        ne, dis = speech_run.replay_logs(mo, int(cfg.get("PauseFactor", 100)), items)
         n_entries += ne
         disagreements += [dict(d, config=cfg) for d in dis]
         for it in items:
@@ -106,8 +112,8 @@ def run(ctx):
                 d = dirty(sp["v"], it["xml"])
                 if d:
                     oracle_fail.append({"why": "overview contains " + ", ".join(d), "config": cfg, "xml": it["xml"], "speech": sp["v"], "lines": it["lines"]})
-        for x in sub[:2]:
-            cmds = [rng.choice(NAV) for _ in range(5)]
+        for x in sub[:2] + WALK_EXPRS:
+            cmds = [rng.choice(NAV) for _ in range(5)] if x not in WALK_EXPRS else WALK
             lines = pre + [{"op": "set_mathml", "xml": x}] + [{"op": "nav", "cmd": c} for c in cmds]
             rep = im.run([{"op": "session"}] + lines)[1:]
             for q, r in zip(lines, rep):
